@@ -15,6 +15,7 @@ import z3
 
 from contracts import parse_scalar as PS
 from verif.pyvc import spec as S
+from verif.pyvc import val as V
 from verif.pyvc import verify as VF
 
 PARSER = PS.PARSER
@@ -50,8 +51,19 @@ def _key_is_constructor(a, i=0):
 
 
 def _word_text(a, i, kind):
+    """the text a token contributes to a multi-word value (the parser's _token_to_str): raw lexeme for numbers, the
+    quoted form for strings, the literal spelling for booleans and null, the value text otherwise"""
     t = PS._tk(a, i)
-    return S.attr(t, "raw") if kind == "NUMBER" else S.attr(t, "value")
+    v = S.attr(t, "value")
+    if kind == "NUMBER":
+        return S.attr(t, "raw")
+    if kind == "STRING":
+        return z3.Concat(z3.StringVal('"'), v, z3.StringVal('"')) if S.symbolic(v) else f'"{v}"'
+    if kind == "BOOLEAN":
+        return z3.If(v, z3.StringVal("true"), z3.StringVal("false")) if S.symbolic(v) else ("true" if v else "false")
+    if kind == "NULL":
+        return "null"
+    return v
 
 
 def multiword(kinds: tuple) -> VF.FunctionContract:
@@ -63,6 +75,8 @@ def multiword(kinds: tuple) -> VF.FunctionContract:
         cs = []
         for i, k in zip(words, kinds):
             v = _word_text(a, i, k)
+            if isinstance(v, str):
+                continue
             # plain words: NAME<qualifier> annotations are a different (list-producing) form
             cs.append(S.Not(z3.Contains(v, z3.StringVal("<"))) if S.symbolic(v) else "<" not in v)
         return S.And(PS._pre([i for i, k in zip(words, kinds) if k == "NUMBER"], depth=False)(a), *cs)
@@ -70,6 +84,7 @@ def multiword(kinds: tuple) -> VF.FunctionContract:
     def joined(a):
         vs = [_word_text(a, i, k) for i, k in zip(words, kinds)]
         if S.symbolic(*vs):
+            vs = [v if V.is_z3(v) else z3.StringVal(v) for v in vs]
             out = vs[0]
             for v in vs[1:]:
                 out = z3.Concat(out, z3.StringVal(" "), v)
@@ -162,4 +177,4 @@ def bare_flow(kind: str) -> VF.FunctionContract:
     )
 
 
-MULTIWORD_KINDS = [("IDENTIFIER", "IDENTIFIER"), ("IDENTIFIER", "IDENTIFIER", "IDENTIFIER"), ("IDENTIFIER", "NUMBER"), ("NUMBER", "IDENTIFIER")]
+MULTIWORD_KINDS = [("IDENTIFIER", "IDENTIFIER"), ("IDENTIFIER", "IDENTIFIER", "IDENTIFIER"), ("IDENTIFIER", "NUMBER"), ("NUMBER", "IDENTIFIER"), ("STRING", "IDENTIFIER"), ("BOOLEAN", "IDENTIFIER"), ("NULL", "IDENTIFIER"), ("IDENTIFIER", "STRING"), ("IDENTIFIER", "BOOLEAN", "NULL")]
